@@ -127,6 +127,19 @@ class VStr(V):
                 self._term = z3.Concat(*ts)
         return self._term
 
+    def units(self) -> Optional[List[Any]]:
+        """The string as a list of code points (python ints or z3 Int terms) if every part is a
+        literal string or a single-character ``Unit(x)``; else None."""
+        out: List[Any] = []
+        for p in self.parts:
+            if isinstance(p, str):
+                out.extend(ord(ch) for ch in p)
+            elif z3.is_app(p) and p.decl().kind() == z3.Z3_OP_SEQ_UNIT:
+                out.append(p.arg(0))
+            else:
+                return None
+        return out
+
     def __repr__(self) -> str:
         return f"VStr({self.py!r})" if self.py is not None else f"VStr({self.parts})"
 
